@@ -526,3 +526,49 @@ func FOLD_UserFolders(h *rt.H) {
 	h.Assert("events", ev.Equal(ev.Normalise(rec.Events), want))
 	h.Assert("contract", ev.Contract(rec.Events) == "")
 }
+
+// FOLD_UserFolderSigs (C12, C15): Folders is given a function whose signature is not
+// func(*T, structform.ExtVisitor) error. The function is called through an unsafe
+// conversion to that shape, so anything else must be refused when the option is
+// applied - or, if accepted, must work: folding a T emits what the function emits
+// and no invalid conversion takes place.
+func FOLD_UserFolderSigs(h *rt.H) {
+	x := int8(h.U8("x"))
+	var fn interface{}
+	valid := false
+	switch h.Choose("sig", 0, 6) {
+	case 0:
+		valid = true
+		fn = func(p *ufT, v structform.ExtVisitor) error { return v.OnInt16(int16(p.A) + 1000) }
+	case 1: // a narrower interface: ExtVisitor implements it, the method tables differ
+		fn = func(p *ufT, v structform.Visitor) error { return v.OnInt16(int16(p.A) + 1000) }
+	case 2:
+		fn = func(p *ufT, v interface{}) error { return v.(structform.Visitor).OnInt16(int16(p.A) + 1000) }
+	case 3: // value receiver
+		fn = func(p ufT, v structform.ExtVisitor) error { return v.OnInt16(int16(p.A) + 1000) }
+	case 4: // no error result
+		fn = func(p *ufT, v structform.ExtVisitor) { _ = v.OnInt16(int16(p.A) + 1000) }
+	case 5: // arguments swapped
+		fn = func(v structform.ExtVisitor, p *ufT) error { return v.OnInt16(int16(p.A) + 1000) }
+	case 6:
+		fn = func(p *ufT, v structform.ArrayVisitor) error { return v.OnArrayFinished() }
+	}
+	var rec ev.Recorder
+	it, err := gotype.NewIterator(&rec, gotype.Folders(fn))
+	if valid {
+		h.Assert("iterator-created", err == nil)
+	}
+	h.ObserveBool("refused", err != nil)
+	if err != nil {
+		return
+	}
+	var v interface{} = ufT{x}
+	if h.Choose("ptr", 0, 1) == 1 {
+		v = &ufT{x}
+	}
+	err = it.Fold(v)
+	if valid {
+		h.Assert("no-error", err == nil)
+		h.Assert("events", ev.Equal(ev.Normalise(rec.Events), []ev.Event{sNum(int64(x) + 1000)}))
+	}
+}
